@@ -241,6 +241,18 @@ def check(case) -> list[Fail]:
     f1, p1 = check_one(h, case["cfg"])
     f2, p2 = check_one(h, case["cfg2"])
     f = f1 + [x for x in f2 if (x.clause, x.locus) not in {(y.clause, y.locus) for y in f1}]
+    # rendering without a configuration == rendering with a fresh default one, whatever another
+    # renderer's configuration object was set to before
+    try:
+        from hugr.hugr.render import DotRenderer, RenderConfig
+
+        other = DotRenderer()
+        other.config.qualify_op_name = not other.config.qualify_op_name
+        d0, d1 = h.render_dot().source, h.render_dot(RenderConfig()).source
+        if d0 != d1:
+            f.append(Fail("config-independence", "default-config-is-shared-state", "render_dot() differs from render_dot(RenderConfig()) after another renderer's config was changed"))
+    except Exception as e:  # noqa: BLE001
+        f.append(exc_fail("render-default", e))
     if p1 is not None and p2 is not None and p1 != p2:
         which = [n for n, (a, b) in zip(["nodes", "clusters", "edges", "edge-labels", "ports/placement"], zip(p1, p2)) if a != b]
         f.append(Fail("config-independence", "+".join(which), f"{case['cfg']} vs {case['cfg2']}"))
